@@ -412,6 +412,11 @@ func upstreamProcsForProc(proc WorkflowProcess) map[string]WorkflowProcess {
 	}
 	for _, pip := range proc.InParamPorts() {
 		for _, rpp := range pip.RemotePorts {
+			if rpp.Process() == proc {
+				// The feeder port created by FromStr() belongs to the process
+				// itself; following it would recurse forever
+				continue
+			}
 			procs[rpp.Process().Name()] = rpp.Process()
 			mergeWFMaps(procs, upstreamProcsForProc(rpp.Process()))
 		}
